@@ -309,8 +309,8 @@ pub trait Datamodel {
                                 // If the evaluation of 'expr' produces an error, the Processor must place
                                 // error.execution in the internal event queue and use the empty string as
                                 // the value of the <content> element.
+                                // (execute() has placed error.execution)
                                 error!("content expr '{}' is invalid ({})", expr, msg);
-                                self.internal_error_execution();
                                 None
                             }
                             Ok(value) => Some(value),
@@ -353,8 +353,8 @@ pub trait Datamodel {
                                 // ...if the evaluation of the 'expr' produces an error, the SCXML
                                 // Processor must place the error 'error.execution' on the internal event
                                 // queue and must ignore the name and value.
+                                // (execute() has placed error.execution)
                                 error!("expr of param {} is invalid ({})", param, msg);
-                                self.internal_error_execution();
                             }
                             Ok(value) => {
                                 values.push(ParamPair::new_moved(
